@@ -3,7 +3,7 @@
    strum's own case_style.rs (CaseStyle::from_str, convert_case, snakify).
    ASCII identifiers only (documented limit of the model). *)
 Require Export Strum.Model.Bytes.
-Open Scope char_scope.
+Local Open Scope char_scope.
 
 Inductive mode := MBoundary | MLower | MUpper.
 Definition mode_eqb a b :=
